@@ -358,6 +358,24 @@ fn pushed_classes(code: u8) -> Option<Vec<&'static str>> {
 }
 
 fn check_typeconfusion(acc: &mut Acc, e: &Ent, prefix: &[u8], delta: &[u8], unsafe_mode: bool, rate: f64, origin: &str) {
+    check_typeconfusion_cur(acc, e, prefix, delta, delta, unsafe_mode, rate, origin);
+    if unsafe_mode {
+        // the generator hands ONE snapshot to every registered mutator in turn: when an earlier
+        // post-processing mutator has already replaced the emission, the buffer no longer ends
+        // with the snapshot's output_delta (longer, shorter, or equally long other bytes)
+        const EARLIER: [&[u8]; 5] = [b"\x8c\x08confused", b"N", b"J\x01\x02\x03\x04", b"G\x3f\xf0\x00\x00\x00\x00\x00\x00", b"]"];
+        let k = (delta.len() + prefix.len()) % EARLIER.len();
+        for cur in [EARLIER[k], EARLIER[(k + 1) % EARLIER.len()]] {
+            if cur != delta {
+                check_typeconfusion_cur(acc, e, prefix, delta, cur, unsafe_mode, rate, "emission already replaced by an earlier mutator");
+            }
+        }
+    }
+}
+
+/// `current` = the bytes that follow the prefix in the buffer when post_process is called
+#[allow(clippy::too_many_arguments)]
+fn check_typeconfusion_cur(acc: &mut Acc, e: &Ent, prefix: &[u8], delta: &[u8], current: &[u8], unsafe_mode: bool, rate: f64, origin: &str) {
     let tc = TypeConfusionMutator::new(unsafe_mode);
     let snap = EmissionSnapshot {
         stack_depth: 1,
@@ -368,12 +386,15 @@ fn check_typeconfusion(acc: &mut Acc, e: &Ent, prefix: &[u8], delta: &[u8], unsa
         memo_delta: Vec::new(),
     };
     let mut out = prefix.to_vec();
-    out.extend_from_slice(delta);
+    out.extend_from_slice(current);
     let before = out.clone();
     acc.evaluations += 1;
+    if current != delta {
+        acc.count("typeconfusion_calls_with_stale_snapshot", 1);
+    }
     let wit = |out: &Vec<u8>| {
         json!({"mutator": "typeconfusion", "unsafe_mode": unsafe_mode, "entropy": e.to_json(), "rate": rate,
-            "prefix_hex": hex(prefix), "delta_hex": hex(delta), "after_hex": hex(out), "origin": origin})
+            "prefix_hex": hex(prefix), "delta_hex": hex(delta), "buffer_tail_before_hex": hex(current), "after_hex": hex(out), "origin": origin})
     };
     let r = with_source(e, |src| tc.post_process(&snap, &mut out, src, rate));
     let fired = match r {
@@ -864,6 +885,34 @@ pub fn c18(thorough: bool, seed: u64) -> CheckOutput {
         let n = 3 + rng.below(14) as usize;
         ents.push(Ent::Bytes(rng.bytes(n)));
     }
+    // longer strings are not exhaustible, but the values the adapters decode from them have
+    // boundaries: constant fills of every length 3..=24, and all single / paired / some tripled
+    // 4-byte boundary words (0, 1, MAX, MIN, MAX-1, sign bit.. in both byte orders)
+    for b in [0x00u8, 0x01, 0x7f, 0x80, 0xfe, 0xff] {
+        for len in 3..=24usize {
+            ents.push(Ent::Bytes(vec![b; len]));
+        }
+    }
+    let mut words: Vec<[u8; 4]> = Vec::new();
+    for w in [0u32, 1, 0x7fff_ffff, 0x8000_0000, 0xffff_ffff, 0xffff_fffe, 0x8000_0001, 0x0000_00ff, 0x0000_ffff, 0x00ff_ffff] {
+        words.push(w.to_le_bytes());
+        if w.to_be_bytes() != w.to_le_bytes() {
+            words.push(w.to_be_bytes());
+        }
+    }
+    for a in &words {
+        ents.push(Ent::Bytes(a.to_vec()));
+        for b in &words {
+            let mut v = a.to_vec();
+            v.extend_from_slice(b);
+            ents.push(Ent::Bytes(v.clone()));
+            let c = words[rng.below(words.len() as u64) as usize];
+            v.extend_from_slice(&c);
+            ents.push(Ent::Bytes(v.clone()));
+            v.extend_from_slice(b);
+            ents.push(Ent::Bytes(v));
+        }
+    }
     let n_prng = if thorough { 10_000 } else { 1_500 };
     for _ in 0..n_prng {
         ents.push(Ent::Prng(rng.next()));
@@ -1082,7 +1131,7 @@ pub fn c18(thorough: bool, seed: u64) -> CheckOutput {
     acc.sample(json!({"entropy": {"prng_seed": 42}, "call": "gen_range(usize::MAX-1, usize::MAX)", "checked": "== usize::MAX-1"}));
     CheckOutput {
         acc,
-        rule: "cases = every EntropySource method on harness-built sources: n,a,b over an 18-point grid incl. 0,1,255,256,257,65536,2^32+-1,usize::MAX (all pairs), lengths 0..16,255,256,65536, x entropy states = ALL fuzzer byte strings of length <= 2 (65 793, exhaustive) + random strings of length 3..16 + PRNG seeds; evaluations = calls; distinct non-trivial = distinct entropy states (each runs the whole argument grid)".into(),
+        rule: "cases = every EntropySource method on harness-built sources: n,a,b over an 18-point grid incl. 0,1,255,256,257,65536,2^32+-1,usize::MAX (all pairs), lengths 0..16,255,256,65536, x entropy states = ALL fuzzer byte strings of length <= 2 (65 793, exhaustive) + random strings of length 3..16 + constant fills of length 3..24 and concatenations of 4-byte boundary words + PRNG seeds; evaluations = calls; distinct non-trivial = distinct entropy states (each runs the whole argument grid)".into(),
         extra: json!({"grid": grid.len(), "exhaustive_byte_strings_len_le_2": exhaustive_short, "exhaustive_byte_strings_len_3": three_byte_states, "entropy_states": ents.len()}),
         assumptions: vec!["documented fallbacks: 0 / false / min / zeros / 'a' (first table entry)".into()],
         exhaustive: None,
